@@ -523,7 +523,7 @@ func init() {
 			ncard := fv.u.freshConst("cpcard", sortInt)
 			st.assume(mk(sortBool, "(forall ((k!c %s)) (! (= (select %s k!c) (or (select %s k!c) (select %s k!c))) :pattern ((select %s k!c))))", dst.Sort.Key.Name, ndom.S, ddom.S, sdom.S, ndom.S))
 			st.assume(mk(sortBool, "(forall ((k!c %s)) (! (= (select %s k!c) (ite (select %s k!c) (select %s k!c) (select %s k!c))) :pattern ((select %s k!c))))", dst.Sort.Key.Name, nval.S, sdom.S, sval.S, dval.S, nval.S))
-			st.assume(mk(sortBool, "(>= %s 0)", ncard.S))
+			st.assume(mk(sortBool, "(and (>= %s 0) (= (= %s 0) (forall ((k!c %s)) (not (select %s k!c)))))", ncard.S, ncard.S, dst.Sort.Key.Name, ndom.S))
 			base := len(st.pc)
 			a := st.clone()
 			a.assume(not(eq(dst, Term{"0", sortInt})))
@@ -553,6 +553,9 @@ func init() {
 			st.assume(mk(sortBool, "(= %s (- %s (- %s %s)))", slLen(r).S, slLen(s).S, j.S, i.S))
 			st.assume(mk(sortBool, "(forall ((k!c Int)) (! (= (select %s k!c) (ite (< k!c %s) (select %s k!c) (select %s (+ k!c (- %s %s))))) :pattern ((select %s k!c))))",
 				slArr(r).S, i.S, slArr(s).S, slArr(s).S, j.S, i.S, slArr(r).S))
+			// the same fact seen from the source: every surviving element has a place in the result
+			st.assume(mk(sortBool, "(forall ((k!c Int)) (! (and (=> (and (<= 0 k!c) (< k!c %s)) (= (select %s k!c) (select %s k!c))) (=> (and (<= %s k!c) (< k!c %s)) (= (select %s (- k!c (- %s %s))) (select %s k!c)))) :pattern ((select %s k!c))))",
+				i.S, slArr(r).S, slArr(s).S, j.S, slLen(s).S, slArr(r).S, j.S, i.S, slArr(s).S, slArr(s).S))
 			return []Term{r}
 		}},
 	}
